@@ -109,6 +109,21 @@ def _arm_components(body):
     return sorted(made), helper
 
 
+_LAZY_INIT = ("get_or_insert_with", "get_or_init", "get_or_try_init", "or_insert_with", "or_insert_with_key")
+
+
+def _root_local(e):
+    """the local a receiver expression is rooted in (through field accesses, borrows, derefs and method receivers)"""
+    while isinstance(e, dict):
+        if e.get("k") == "Path":
+            return e.get("local")
+        if e.get("k") == "MethodCall":
+            e = e.get("recv")
+        else:
+            e = e.get("e")
+    return None
+
+
 def _vec_ops(body):
     """methods applied to a Vec receiver below `body`"""
     ops = []
@@ -836,20 +851,36 @@ def r20d(P, R):
         for i, (n, par) in enumerate(nodes):
             if not (n.get("k") == "Call" and call_name(n) in spec_fns and call_name(n) != f.path):
                 continue
-            # nearest enclosing loop
-            loop, p = None, par
+            # nearest enclosing loop; a closure handed to a lazy initialiser (`cell.get_or_insert_with(|| ..)`, `get_or_init`,
+            # `entry(k).or_insert_with`) runs only when the cell is still empty: the cell is the guard
+            loop, p, lazy, child = None, par, [], i
             while p >= 0:
                 if nodes[p][0].get("k") == "Loop":
                     loop = nodes[p][0]
                     break
                 if nodes[p][0].get("k") == "Closure":
-                    break
-                p = nodes[p][1]
+                    q = nodes[p][1]
+                    host = nodes[q][0] if q >= 0 else {}
+                    if host.get("k") == "MethodCall" and host.get("method") in _LAZY_INIT and any(a is nodes[p][0] for a in host.get("args", [])):
+                        lazy.append(host)
+                    else:
+                        break
+                child, p = p, nodes[p][1]
             if loop is None:
                 continue
             inside = {id(y) for y in subnodes(loop)}
             carried = {y["local"] for y in f.walk() if y.get("k") == "Binding" and "Mut" in str(y.get("mode", "")) and id(y) not in inside}
+            outer = {y["local"] for y in f.walk() if y.get("k") == "Binding" and id(y) not in inside}
             bad = []
+            lazy_undecided = False
+            for host in lazy:
+                root = _root_local(host["recv"])
+                if root is None or root not in outer:
+                    continue
+                if host["method"] in ("or_insert_with", "or_insert_with_key"):
+                    lazy_undecided = True       # keyed: whether the key separates the files is not read here
+                else:
+                    bad.append(sorted(y["name"] for y in f.walk() if y.get("k") == "Binding" and y.get("local") == root)[0])
             for g in guards_of(f, i, stop=loop):
                 e = g.get("e")
                 if e is None:
@@ -858,7 +889,9 @@ def r20d(P, R):
                 if used & carried and g["kind"] in ("cond", "arm", "pat"):
                     bad.append(sorted(y["name"] for y in f.walk() if y.get("k") == "Binding" and y.get("local") in (used & carried))[0])
             key = "per-file:%s" % short(f.path)
-            if bad:
+            if not bad and lazy_undecided:
+                R.undecided("R20-d", key, "the specifier is computed inside a keyed lazy initialiser held outside the loop over files", loc=f.loc())
+            elif bad:
                 R.violated("R20-d", key, "%s computes the schema import specifier for a file only under a condition on `%s`, state carried over from "
                            "earlier iterations of the loop over files: whenever that condition says 'reuse', the file gets the relative path "
                            "computed for another file (another directory)" % (f.path, bad[0]), loc=f.loc())
